@@ -20,13 +20,13 @@ SPECS = {
     'C02': dict(level='translation_validation', engines=['GEN'], rules=['G-CAP', 'G-LAYOUT', 'G-ANCHOR'],
                 stats=['cap_accesses', 'cap_layouts', 'layout_records'],
                 what='every typed access of every generated function fits MAX_SIZE, is offset-aligned for rustc\'s align_of, and repr(align) of the record types is a multiple of it'),
-    'C03': dict(level='translation_validation', engines=['GEN', 'SRC'], rules=['G-LAYOUT', 'G-MOVED', 'W1'],
+    'C03': dict(level='translation_validation', engines=['GEN', 'SRC'], rules=['G-LAYOUT', 'G-MOVED', 'W1', 'B-APPEND'],
                 stats=['layout_records', 'cap_layouts', 'kind:conv'],
                 what='offsets are written only by strategy code and only for ids of data being added; all record types of a module have one repr(align) and one field type, rustc layouts agree for several capacities; kept data stay at their (offset,type)'),
     'C04': dict(level='translation_validation', engines=['GEN', 'SRC'], rules=['G-ACC', 'G-FIELD', 'G-DISJ', 'G-SHAPE', 'G-PRESENT', 'G-STORE', 'G-UNINIT', 'R-PRIM'],
                 stats=['accessors', 'kind:new', 'kind:new_uninit', 'kind:unpack', 'kind:from_unpacked', 'kind:from_unpacked_uninit', 'disjoint_pairs'],
                 what='accessor / constructor / unpack tables agree per variant, fields are byte-disjoint, primitives touch base+offset through a pointer with write provenance'),
-    'C05': dict(level='translation_validation', engines=['GEN'], rules=['G-CONV', 'G-FIELD', 'G-PRESENT', 'G-MOVED', 'G-SHAPE', 'G-ANCHOR'],
+    'C05': dict(level='translation_validation', engines=['GEN'], rules=['G-CONV', 'G-FIELD', 'G-PRESENT', 'G-MOVED', 'G-SHAPE', 'G-ANCHOR', 'G-DISJ', 'G-STORE', 'G-INV'],
                 stats=['kind:conv'],
                 what='all four conversion forms per adjacent pair: removed cells read before the buffer is duplicated, carried cells untouched, added cells written from the same-named input field, removed values handed back under their own name'),
     'C06': dict(level='translation_validation', engines=['GEN'], rules=['G-LEAK', 'G-DOUBLE', 'G-INV', 'G-OWN', 'G-CONV', 'G-PRESENT', 'G-UNANALYSABLE', 'G-CLONE', 'copy-of-owned', 'overwrite-owned'],
